@@ -76,6 +76,7 @@ type c15Input struct {
 	PkgRel string
 	Files  map[string]string // module-root relative
 	Input  string            // base name of the input argument inside PkgRel
+	Env    []string          // extra environment of the tool for this input (later entries win)
 }
 
 type c15Case struct {
@@ -94,6 +95,8 @@ type c15Case struct {
 	Spelling string // rel | abs | root
 	Strace   bool
 	Escal    bool
+	// StdoutFull: standard output is /dev/full (every write fails with ENOSPC); only with -print
+	StdoutFull bool
 }
 
 func (c *c15Case) flagString() string {
@@ -189,6 +192,17 @@ func c15HandInputs() []*c15Input {
 		mk("h-late-literal", c15HandSetup("type Convergen interface {\n\t// :literal Name )(\n\tAtoB(src *A) (dst *B)\n\tBtoA(src *B) (dst *A, err error)\n}\n"), "setup.go"),
 		mk("h-late-shortbody", c15HandSetup("type Convergen interface {\n\tAtoB(*A) *B\n}\n"), "setup.go"),
 		mk("h-late-recvargs", c15HandSetup("type Convergen interface {\n\t// :recv a\n\tAtoB(*A, int) *B\n\tBtoA(src *B) (dst *A, err error)\n}\n"), "setup.go"),
+		// a go.mod the go command could "repair" (a replace directive without its require) and a file that
+		// imports the module, run with the go command's default -mod=readonly: go.mod is a source like any other
+		func() *c15Input {
+			in := mk("h-gomod-repairable", c15HandSetup(okBody), "setup.go")
+			in.Files["go.mod"] = "module " + scen.ModName + "\n\ngo 1.19\n\nreplace example.com/c15lib => ./c15libmod\n"
+			in.Files["c15libmod/go.mod"] = "module example.com/c15lib\n\ngo 1.19\n"
+			in.Files["c15libmod/lib.go"] = "package c15lib\n\ntype T struct{ X int }\n"
+			in.Files["hm/uselib.go"] = "package sc\n\nimport \"example.com/c15lib\"\n\nvar _ c15lib.T\n"
+			in.Env = []string{"GOFLAGS=-mod=readonly"}
+			return in
+		}(),
 		// crash: hook with fewer than two parameters
 		mk("h-crash-hook", c15HandSetup("type Convergen interface {\n\t// :preprocess hook1\n\tAtoB(src *A) (dst *B)\n\tBtoA(src *B) (dst *A, err error)\n}\n"), "setup.go"),
 	}
@@ -357,6 +371,10 @@ func (x *c15ctx) runCase(c *c15Case) *c15Obs {
 	if c.State == "alias" && c.Mech == "same" {
 		outName = c.In.Input
 	}
+	if c.Out && c.Idx%7 == 3 && (c.State == "absent" || c.State == "present") {
+		// an -out name whose extension is .log: the log path derived from it is the output path itself
+		outName = "c15alt.log"
+	}
 	var inArg, outArg string
 	switch c.Spelling {
 	case "abs":
@@ -459,6 +477,10 @@ func (x *c15ctx) runCase(c *c15Case) *c15Obs {
 		spec.Env = append(spec.Env, "HOME="+x.nbHome, "GOCACHE="+x.nbCache)
 		_ = os.Chmod(tmp, 0o777)
 		_ = os.Chmod(aux, 0o777)
+	}
+	spec.Env = append(spec.Env, c.In.Env...)
+	if c.StdoutFull && !c.Strace {
+		spec.Wrap = []string{"/bin/sh", "-c", `exec "$@" >/dev/full`, "sh"}
 	}
 	traceFile := filepath.Join(aux, "trace.txt")
 	if c.Strace {
@@ -981,8 +1003,9 @@ func RunC15(e *core.Env) int {
 						c.Mech = []string{"same", "symlink", "hardlink"}[(bits/2+r+ki)%3]
 					}
 					c.Strace = r == 0 && straceBits[bits] || straceEvery > 0 && c.Idx%straceEvery == 0
-					c.ID = fmt.Sprintf("%s/%s/%s/%s%s/%s/r%d", k.name, c.In.Name, c.flagString(), st,
-						map[bool]string{true: "-" + c.Mech, false: ""}[c.Mech != ""], c.Spelling, r)
+					c.StdoutFull = c.Print && !c.Strace && (bits+si+ki+r)%3 == 1
+					c.ID = fmt.Sprintf("%s/%s/%s/%s%s/%s/r%d%s", k.name, c.In.Name, c.flagString(), st,
+						map[bool]string{true: "-" + c.Mech, false: ""}[c.Mech != ""], c.Spelling, r, map[bool]string{true: "/stdout-full", false: ""}[c.StdoutFull])
 					cases = append(cases, c)
 				}
 			}
